@@ -114,3 +114,37 @@ PROPS["C02"] = dict(
         sim("^TestVerifC02Acks$", 250, 1200, files=["sim*.go", "c02*.go"]),
     ],
 )
+
+PROPS["C07"] = dict(
+    level="exploration",
+    rule=("rapid-generated histories over a universe of 6-30 entries with near-collisions (same TBS under two issuer key hashes, certificate with bytes equal to a TBS), "
+          "submissions before rounds and inline at yield points (duplicates of pending / in-sequencing / acknowledged entries), faults, failed rounds, process kills, and cache actions "
+          "between rounds: delete, roll back to a snapshot, replace by a harness-built legacy 128-bit table, rebuild with the built recompute-cache binary; the oracle predicts the source of every "
+          "answer (pool / cache / new leaf) from its own bookkeeping, demands identical (index,timestamp) for all acknowledgements of a key while the cache is intact, and checks every acknowledgement "
+          "against storage and the committed leaves; plus differentials of both computeCacheHash copies against an independent derivation; "
+          "non-trivial = a key acknowledged >=2 times in a history with a duplicate-while-sequencing, cache loss/rollback, legacy table, tool run or kill; distinct = history descriptor hash"),
+    assumptions=["cachePut succeeds whenever the round succeeded (SQLite write failures are not injected)"],
+    technique="stateful property-based testing with a predicted-source deduplication oracle; differential test of the key derivation",
+    bins=["cmd/recompute-cache"],
+    units=[
+        sim("^TestVerifC07Dedup$", 250, 1000, files=["sim*.go", "c07*.go"]),
+        sim("^TestVerifC07CacheKey$", 5000, 20000, ts=2, files=["sim*.go", "c07*.go"]),
+        rapid("recompute", "cmd/recompute-cache", "^TestVerifC07ToolCacheKey$", 5000, 20000, ts=2),
+    ],
+)
+
+PROPS["C06"] = dict(
+    level="exploration",
+    rule=("(1) rapid-generated schedules of 2-3 (plus later-started) Log instances with the same key over one lock store and object store: a step runs one instance's round, optionally with another "
+          "instance's whole round (fresh or identical pool, possibly stale) and/or a brand-new LoadLog executed inside a generated yield point (storage/lock operation) of that round; "
+          "oracle: lock history is one chain that always equals previous leaves + the committing instance's pool, a loser of the compare-and-swap stops with a fatal error and acknowledges nothing, "
+          "acknowledgements are backed by storage at their instant, final audit after a healthy reload. (2) generated start-up states (create over lock/storage/both/concurrently; storage behind with/without staging bundle, "
+          "storage ahead, same size other root, foreign key in storage or lock, foreign name, extension line, missing checkpoint/edge tile/data tile/lock entry) must be refused or recovered as stated. "
+          "non-trivial = a schedule with a CAS conflict, or any start-up state; distinct = schedule/state descriptor hash"),
+    assumptions=["interleavings are explored at storage/lock-operation granularity; all instances share one object store"],
+    technique="property-based testing with harness-owned interleaving of several server instances on a simulated CAS lock store",
+    units=[
+        sim("^TestVerifC06Instances$", 250, 1200, files=["sim*.go", "c06*.go"]),
+        sim("^TestVerifC06Startup$", 200, 600, files=["sim*.go", "c06*.go"]),
+    ],
+)
